@@ -46,8 +46,11 @@ def gen_world(seed, wi):
         ng = 1
         gopts = [dict(WL.gene_opts(rng, small=True), gene_len=420, pseudo=False, lfusion=False, rfusion=False,
                       deletion=True)]
+    if ng == 2 and rng.random() < 0.4:
+        # one gene's name is a prefix of the other's (as CYP3A4 / CYP3A43): both end up in one archive
+        gopts[1]["name"] = "SIMA" + rng.choice(["3", "B", "P1"])
     gopts.append(dict(strand=rng.choice("+-"), gene_len=420, n_exons=2, n_variants=3, n_major=1,
-                      pseudo=False, deletion=True))
+                      pseudo=False, deletion=True, name="SIMZ"))
     ro = WL.read_opts(rng)
     world = W.gen_world(rng, ng + 1, gopts, ro, margin=max(200, ro["L"] + 60))
     world["genes"][-1]["no_reads"] = True
@@ -92,8 +95,12 @@ def gen_world(seed, wi):
         while len(units) < 2:
             units.append({"type": "normal", "allele": rng.choice(normal)})
         smp["genes"][g0["name"]] = units + [{"type": "extra", "allele": rng.choice(normal)}]
-    return {"world": world, "samples": {"s0": smp}, "build": rng.choice(["hg19", "hg19", "hg38"]), "ngenes": ng,
-            "exome": exome}
+    build = rng.choice(["hg19", "hg19", "hg38"])
+    if build == "hg19" and rng.random() < 0.2:
+        # a header the build detection does not recognise (a contig named 22 of another length): aldy falls back
+        # to hg19 with a warning, and the archive of that run has to replay all the same
+        smp["header_extra"] = [{"SN": "22", "LN": 43000000 + rng.randint(0, 9999)}]
+    return {"world": world, "samples": {"s0": smp}, "build": build, "ngenes": ng, "exome": exome}
 
 
 OTHER_PARAMS = {
@@ -183,7 +190,9 @@ def gen_plan(rng, tier, i, seed):
         "fault_at": rng.randint(1, 14),
         "fault_kind": rng.choice(["infeasible", "abnormal", "not_solved", "incumbent", "verify"]),
         "write": {"hashseed": rng.choice([0, 1, 2, 3]), "cwd": rng.choice(["run", "world"]),
-                  "clock": {"start": 1.7e9, "jumps": [0.5, 2.0]}},
+                  "clock": {"start": 1.7e9, "jumps": [0.5, 2.0]},
+                  # the archive's member order is the file system's directory order: an environment choice
+                  "member_order": rng.choice([None, None, "sorted", "reversed", f"shuffle:{rng.randint(0, 999)}"])},
         "replay": {"hashseed": rng.choice([0, 1, 2, 3, 4, 5, 6, 7]), "cwd": rng.choice(["run", "world", "root"]),
                    "tmp": rng.choice(["default", "run"]),
                    "clock": {"start": rng.choice([1.7e9, 2.1e9]), "jumps": [rng.choice([0.1, -3.0, 86400.0]), 1.0]},
@@ -577,6 +586,25 @@ def _sample_names(output, kind):
     return sorted(names)
 
 
+def _reorder_archive(arch, order):
+    """Same members, same bytes, another directory order (tar stores them in readdir order)."""
+    import io
+    import tarfile
+
+    with tarfile.open(arch, "r:gz") as t:
+        items = [(m, t.extractfile(m).read() if m.isfile() else None) for m in t.getmembers()]
+    dirs = [x for x in items if x[1] is None]
+    files = sorted((x for x in items if x[1] is not None), key=lambda x: x[0].name)
+    if order == "reversed":
+        files.reverse()
+    elif order.startswith("shuffle:"):
+        random.Random(order).shuffle(files)
+    with tarfile.open(arch, "w:gz") as t:
+        for m, data in dirs + files:
+            t.addfile(m, io.BytesIO(data) if data is not None else None)
+    SIM.fire("archive_members_reordered")
+
+
 def run_segment(seg):
     from .. import seams
 
@@ -632,6 +660,8 @@ def run_segment(seg):
             import tarfile
 
             try:
+                if seg.get("member_order"):
+                    _reorder_archive(arch, seg["member_order"])
                 with tarfile.open(arch, "r:gz") as t:
                     res["members"] = sorted(t.getnames())
             except Exception as ex:
